@@ -20,8 +20,9 @@ RULE = ("sources: random histories (add_node/add_edge with re-insertion in permu
         "non-integer and huge floats, ints mixed with floats, tuples), EVERY call receives freshly constructed equal label objects; "
         "half of the directed sources hold hyperedges whose source and target sets overlap (self-loop, feedback hyperedge, identical "
         "sides) or with an empty side, a fifth of the undirected ones the node-less hyperedge (); a tenth of the weighted sources "
-        "has integer weights beyond 2**60; 'extended' sources whose history also has remove_node(keep_edges), clear, "
-        "add_nodes (oracles only, no model); 'large' sources (20-70 nodes, hyperedges up to size 17, a sample of selections); "
+        "has integer weights beyond 2**60; 'extended' sources whose history also has remove_node (with and without keep_edges), "
+        "clear, add_nodes (Hypergraph: also with the metadata table, complete / an entry missing) - sent to the model like the others "
+        "unless they share one dict object between items or hold weights of every numeric kind; copy rounds with these calls too; 'large' sources (20-70 nodes, hyperedges up to size 17, a sample of selections); "
         "'component layout' sources: 2 or 3 connected components (w.r.t. no filter, "
         "size 2 or size 3) of prescribed nearly equal sizes (k,k+1 / k,k / k,k,k+1 / ...), EVERY order of first appearance of "
         "the components in the node listing, bridges of other sizes, a temporary bridge removed again, with the largest "
@@ -396,6 +397,32 @@ def gen_aux_op(rng, kind, n, keys, incs, ov=0.0, top=5):
     return ["attrh", rkey(rng), rv(rng)]
 
 
+def gen_node_op(rng, kind, n, x=None):
+    """remove_node (with / without keep_edges), clear, add_nodes (Hypergraph: now and then with the metadata table)"""
+    x = rng.random() if x is None else x
+    if x < 0.5:
+        return ["rmnode", rng.randrange(n), rng.random() < 0.5]
+    if x < 0.6:
+        return ["clear"]
+    ns = rng.sample(range(n), rng.randint(1, n)) if rng.random() < 0.9 else []
+    if kind == "u" and rng.random() < 0.4:
+        # the metadata table of Hypergraph.add_nodes: an entry per node, now and then one is missing (rejected),
+        # now and then one too many
+        tb = [[r, gen_md(rng, 0.3) or []] for r in ns]
+        y = rng.random()
+        if tb and y < 0.2:
+            tb.pop(rng.randrange(len(tb)))
+        elif y < 0.35:
+            tb.append([rng.randrange(n), gen_md(rng, 0) or []])
+        seen, tb2 = set(), []
+        for r, md in tb:
+            if r not in seen:
+                seen.add(r)
+                tb2.append([r, md])
+        return ["addnodes", ns, tb2]
+    return ["addnodes", ns]
+
+
 def gen_ops(rng, kind, weighted, n, present, length, extended=False, p_aux=0.16, incs=None, ov=0.0, top=5, p_share=0.2):
     """random mutations; `present` = set of canonical keys currently in the object (kept up to date as if all
     valid ops are accepted - used only to bias the generator)"""
@@ -444,13 +471,7 @@ def gen_ops(rng, kind, weighted, n, present, length, extended=False, p_aux=0.16,
             ops.append(["sharemd", rng.sample(range(n), min(n, 2)), rng.choice(keys) if keys and rng.random() < 0.5 else None,
                         gen_md(rng, 0) or []])
         if extended and rng.random() < 0.15:
-            x = rng.random()
-            if x < 0.5:
-                ops.append(["rmnode", rng.randrange(n), rng.random() < 0.5])
-            elif x < 0.6:
-                ops.append(["clear"])
-            else:
-                ops.append(["addnodes", rng.sample(range(n), rng.randint(1, n))])
+            ops.append(gen_node_op(rng, kind, n))
     return ops
 
 
@@ -557,13 +578,16 @@ def gen_source_extended(rng):
     n = len(case["labels"])
     hist = list(case["history"])
     extra = gen_ops(rng, case["kind"], case["weighted"], n, set(), rng.randint(3, 8), extended=True,
-                    incs=case["incs"], ov=case.get("ov", 0.0))
+                    incs=case["incs"], ov=case.get("ov", 0.0), p_share=0.2 if rng.random() < 0.35 else 0.0)
+    # every such source holds a node removal and a node batch for sure
+    extra += [["rmnode", rng.randrange(n), False], ["rmnode", rng.randrange(n), True],
+              gen_node_op(rng, case["kind"], n, rng.choice([0.7, 0.7, 0.55]))]
     for op in extra:
         if op[0] == "clear" and rng.random() < 0.6:
             continue
         hist.insert(rng.randint(len(hist) // 2, len(hist)), op)
     case = {**case, "history": hist, "extended": True}
-    if case["weighted"] and rng.random() < 0.6:
+    if case["weighted"] and rng.random() < 0.35:
         # weights of every numeric kind (nan, inf, 0, huge ints, Fractions, numpy floats, ...), see XW
         case.pop("wscale", None)
         case["xw"] = True
@@ -773,6 +797,9 @@ def apply_py(case, h, op):
     if t == "clear":
         return guard(h.clear)
     if t == "addnodes":
+        if len(op) > 2 and op[2] is not None:
+            # Hypergraph.add_nodes(node_list, metadata): one entry per node (a missing one rejects the whole batch)
+            return guard(h.add_nodes, [lab(case, r) for r in op[1]], {lab(case, r): py_md(md) for r, md in op[2]})
         return guard(h.add_nodes, [lab(case, r) for r in op[1]])
     raise ValueError(t)
 
@@ -819,6 +846,15 @@ def model_line(case, slot, op):
         return f"{k} sethm {slot} {w_md(op[1])}"
     if t == "attrh":
         return f"{k} attrh {slot} {op[1]} {op[2]}"
+    if t == "rmnode":
+        return f"{k} rmnode {slot} {op[1]} {int(bool(op[2]))}"
+    if t == "clear":
+        return f"{k} clear {slot}"
+    if t == "addnodes":
+        tbl = op[2] if len(op) > 2 else None
+        ns = ",".join(str(r) for r in op[1]) if op[1] else "-"
+        tb = "n" if tbl is None else (";".join(f"{r}={w_md(md)}" for r, md in tbl) if tbl else "~")
+        return f"{k} addnodes {slot} {ns} {tb}"
     raise ValueError(t)
 
 
@@ -1933,8 +1969,16 @@ def _check_source(ctx, drv, case, only=None):
     if S[0] == "exc":
         viol(ctx, {**case, "sel": None}, "the source cannot be observed through the public API: " + str(S[1]))
         return
-    modelled = not case.get("extended") and not case.get("xw")
+    # remove_node / clear / add_nodes are model operations; one dict OBJECT handed to several items (`sharemd`) and weights of
+    # every numeric kind (`xw`) are outside a value-based model with integer quanta
+    modelled = not case.get("xw") and not any(op[0] == "sharemd" for op in case["history"])
     if modelled:
+        for op in case["history"]:
+            if op[0] in ("rmnode", "clear", "addnodes"):
+                ctx.count("model_op_" + op[0] + ("_keep" if op[0] == "rmnode" and op[2] else "") +
+                          ("_table" if op[0] == "addnodes" and len(op) > 2 else ""))
+        if case.get("extended"):
+            ctx.count("sources_extended_sent_to_the_model")
         lines = [f"{kind} new 0 {int(case['weighted'])}"] + [model_line(case, 0, op) for op in case["history"]] + [f"{kind} q 0"]
         want = ["ok"] + [("ok" if o == "ok" else "rej") for o in outs] + [tok_snap(case, S)]
     else:
@@ -1959,6 +2003,8 @@ def _check_source(ctx, drv, case, only=None):
         pk = rank_keys(case, S)
         incs = [list(x) for x in case.get("incs", [])]
 
+        share_round = [False]
+
         def ops(ext=False):
             out = _ops(ext)
             if incs and rng.random() < 0.5:
@@ -1970,12 +2016,17 @@ def _check_source(ctx, drv, case, only=None):
 
         def _ops(ext=False):
             return gen_ops(rng, kind, S[0], len(L), pk if rng.random() < 0.7 else set(), rng.randint(2 if ext else 1, 6),
-                           extended=ext, p_aux=rng.choice([0.1, 0.35]), incs=list(incs), ov=case.get("ov", 0.0))
+                           extended=ext, p_aux=rng.choice([0.1, 0.35]), incs=list(incs), ov=case.get("ov", 0.0),
+                           p_share=0.2 if share_round[0] else 0.0)
         copies = [{"f": "copy", "ops_cp": ops(), "ops_orig": ops(), "cold": rng.random() < 0.4,
                    "order": [rng.random() < 0.5 for _ in range(12)]}
                   for _ in range((1 if rng.random() < 0.3 else 0) if case.get("layout") or case.get("large") else 2)]
         if not case.get("layout"):
-            copies.append({"f": "copy", "extended": True, "ops_cp": ops(True), "ops_orig": ops(True), "order": []})
+            # (a third of these rounds with one dict object shared by several items: oracles only; the others also go to the model)
+            share_round[0] = rng.random() < 0.35
+            copies.append({"f": "copy", "extended": True, "ops_cp": ops(True), "ops_orig": ops(True),
+                           "order": [rng.random() < 0.5 for _ in range(12)]})
+            share_round[0] = False
         # one dict object that is the metadata of several items: an attribute set through one of them after the copy
         # shows on the others - in the copy like in a never-copied object (copy rounds, demand 3)
         ids = [id(md) for md in S[1].values()] + [id(v[1]) for v in S[2].values()]
@@ -2366,7 +2417,7 @@ def check_copy(ctx, case, h, S, cp, lines, want, tags, skey):
             viol(ctx, full, f"the copy of the mutated copy is not equal to it: {dd}")
     ctx.case(skey + repr(sorted(cp.items(), key=repr)), changed_cp and changed_orig, sample=None)
     ctx.count("sel_copy" + ("_extended" if cp.get("extended") else ""))
-    if cp.get("extended"):
+    if any(op[0] == "sharemd" for op in list(cp["ops_cp"]) + list(cp["ops_orig"])):
         return
     # model: slot 2 := copy of slot 0, slot 3 := copy of slot 0 standing for the original that is mutated; interleave
     lines += [f"{kind} copy 0 2", f"{kind} copy 0 3"]
@@ -2384,6 +2435,8 @@ def check_copy(ctx, case, h, S, cp, lines, want, tags, skey):
             lines.append(model_line(case, 3, op))
         want.append("ok" if o == "ok" else "rej")
         tags.append(("copy-op", full))
+        if op[0] in ("rmnode", "clear", "addnodes"):
+            ctx.count("model_op_in_copy_round_" + op[0])
     for slot, obj in ((2, c), (3, orig)):
         s = snap(obj)
         lines.append(f"{kind} q {slot}")
